@@ -3,7 +3,7 @@
    canonicalises to that sequence, so two spellings of the same tokens are parsed identically
    by anything that parses the canonical tokens. *)
 From Coq Require Import List String Bool.
-From RashV Require Import Usage SpellProofs Tail TailProofs.
+From RashV Require Import Usage SpellProofs Tail TailProofs NormOpts NormOptsProofs.
 Import ListNotations.
 
 Theorem C10_every_spelling_canonicalises :
@@ -19,3 +19,10 @@ Proof. exact same_tokens_same_canon. Qed.
 Theorem C10_initial_vars_declare_every_option : forall t d,
   In d t -> has_key (options_of (initial_vars t)) (key_repr d) = true.
 Proof. exact initial_vars_declares_every_option. Qed.
+
+(* on the MIRROR of the code's own normalisation (Options::normalize_options, tied to the code by
+   exact agreement on every traced pair): every documented spelling of a token sequence is
+   normalised to the same canonical argument vector, for every well-formed option table *)
+Theorem C10_code_normalises_every_spelling : forall t ks ws,
+  wf_t t -> SpellNAll t ks ws -> Forall (tok_ok t) ks -> normalize_options t ws = Some (map cstr ks).
+Proof. exact normalize_spelling. Qed.
